@@ -230,3 +230,53 @@ Section CrCurrent.
     apply mdeliver_cr; auto. apply mrestart_cr.
   Qed.
 End CrCurrent.
+
+
+(** * The weaker hypothesis is not sufficient *)
+(** "BPCOUNT unchanged between the reference block and the best block" -- even "BPCOUNT constant
+    on the whole main chain" -- does not make the producer set a function of the main chain: the
+    in-memory BPCOUNT is not reloaded at reorg.rollback (only system.InitSystemParams at the END of
+    chain.reorg), so the new branch is rolled forward with the abandoned branch's value and a
+    snapshot taken at an election boundary inside the rollforward is cut at it.
+    Main chain 1..406 with BPCOUNT 3 everywhere; node A first received an abandoned branch
+    1291..1305 (forking at 290) on which BPCOUNT was 5; node B never did.  Block ids: main chain
+    id = height, abandoned branch id = 1000 + height. *)
+Definition wk_sto (id : Z) : list Z * Z := ([0; 1; 2; 3; 4; 5], if 1000 <? id then 5 else 3).
+Fixpoint wk_seg (k : nat) (i off : Z) : list event :=
+  match k with
+  | O => []
+  | S k' => EDeliver (mkBlk (off + i) (if i =? 291 then 290 else off + i - 1) i (i mod 3) 1) :: wk_seg k' (i + 1) off
+  end.
+Definition wk_common : list event := wk_seg 290 1 0.
+Definition wk_old : list event := wk_seg 15 291 1000.
+Definition wk_new : list event := wk_seg 116 291 0.
+Definition wk_evs_a : list event := wk_common ++ wk_old ++ wk_new.
+Definition wk_evs_b : list event := wk_common ++ wk_new.
+Local Notation wk_a := (mrun wk_sto [0; 1; 2] (minit_node wk_sto [0; 1; 2] 0) wk_evs_a).
+Local Notation wk_b := (mrun wk_sto [0; 1; 2] (minit_node wk_sto [0; 1; 2] 0) wk_evs_b).
+
+Example wk_same_main : mn_main wk_a = mn_main wk_b.
+Proof. vm_compute. reflexivity. Qed.
+Example wk_main_const : forallb (fun b => param wk_sto (k_id b) =? 3) (mn_main wk_a) = true.
+Proof. vm_compute. reflexivity. Qed.
+Example wk_clusters : m_cluster wk_a = [0; 1; 2; 3; 4] /\ m_cluster wk_b = [0; 1; 2].
+Proof. vm_compute. split; reflexivity. Qed.
+
+Lemma wk_seg_ok : forall k i off, 0 <= off -> 0 < i -> Forall ev_ok (wk_seg k i off).
+Proof. induction k; simpl; intros; constructor. unfold ev_ok, blk_ok. simpl. lia. apply IHk; lia. Qed.
+
+Theorem cluster_function_of_chain_main_const_refuted :
+  exists sto gen self evs1 evs2,
+    Forall ev_ok evs1 /\ Forall ev_ok evs2 /\
+    mn_main (mrun sto gen (minit_node sto gen self) evs1) = mn_main (mrun sto gen (minit_node sto gen self) evs2) /\
+    forallb (fun b => param sto (k_id b) =? 3) (mn_main (mrun sto gen (minit_node sto gen self) evs1)) = true /\
+    m_cluster (mrun sto gen (minit_node sto gen self) evs1) <> m_cluster (mrun sto gen (minit_node sto gen self) evs2).
+Proof.
+  exists wk_sto. exists [0; 1; 2]. exists 0. exists wk_evs_a. exists wk_evs_b.
+  split. { unfold wk_evs_a, wk_common, wk_old, wk_new. apply Forall_app; split; [apply wk_seg_ok; lia|].
+           apply Forall_app; split; apply wk_seg_ok; lia. }
+  split. { unfold wk_evs_b, wk_common, wk_new. apply Forall_app; split; apply wk_seg_ok; lia. }
+  split. exact wk_same_main. split. exact wk_main_const.
+  destruct wk_clusters as [A B]. intro H.
+  pose proof (eq_trans (eq_sym A) (eq_trans H B)) as X. discriminate X.
+Qed.
